@@ -63,6 +63,31 @@ func runRetryRule(c *Ctx, rule string, scope func(fn *ssa.Function) bool, min in
 					if !ok {
 						continue
 					}
+					// … nor the size computed for it
+					if bo, ok := ifi.Cond.(*ssa.BinOp); ok {
+						for _, side := range []ssa.Value{bo.X, bo.Y} {
+							for {
+								if cv, ok := side.(*ssa.Convert); ok {
+									side = cv.X
+									continue
+								}
+								break
+							}
+							if _, isConst := side.(*ssa.Const); isConst || side.Referrers() == nil {
+								continue
+							}
+							for _, r := range *side.Referrers() {
+								mk, isMake := r.(*ssa.MakeSlice)
+								if !isMake || !reach[mk.Block()] || (mk.Len != side && mk.Cap != side) {
+									continue
+								}
+								if flowsToArgOf(mk, call) {
+									c.Fail(rule, FuncKey(fn)+": the give-up test of a grow-and-retry loop measures the buffer that failed", ifi.Cond.Pos(),
+										"in %s the test that abandons the retry of %s compares the size computed for the next attempt (%s) instead of the size of the buffer that just failed: the largest size the bound allows is never tried, and valid inputs that need it fail to decode", FuncKey(fn), calleeName(call), p.Pos(mk.Pos()))
+								}
+							}
+						}
+					}
 					for _, m := range measuredSlices(ifi.Cond, 0) {
 						mk, isMake := m.(*ssa.MakeSlice)
 						if !isMake || !reach[mk.Block()] {
